@@ -38,6 +38,15 @@ def curve(seed, trial_id, epoch, flavour):
     return float(h) / 16.0
 
 
+def metric_value(spec, trial_id, epoch):
+    """spec["curve_table"] = {"<trial>:<epoch>": value} overrides the hash curve (minimal replays)"""
+    tbl = spec.get("curve_table") or {}
+    key = "%d:%d" % (trial_id, epoch)
+    if key in tbl:
+        return float(tbl[key])
+    return curve(spec["curve_seed"], trial_id, epoch, spec.get("flavour", "plain"))
+
+
 class CkptBackend(TrialBackend):
     def __init__(self, rng, spec, delete_checkpoints):
         super().__init__(delete_checkpoints=delete_checkpoints)
@@ -82,7 +91,8 @@ class CkptBackend(TrialBackend):
         start = self.ckpt.get(trial_id, 0)
         self.epoch[trial_id] = start
         lim = config.get(MAX_RES) if self.spec.get("use_max_resource_attr", True) else None
-        self.limit[trial_id] = int(lim) if lim is not None else int(self.spec["max_t"])
+        # without max_resource_attr the training script runs its own number of epochs (>= max_t)
+        self.limit[trial_id] = int(lim) if lim is not None else int(self.spec.get("worker_epochs") or self.spec["max_t"])
         # every (re)started worker trains at least one epoch and reports it
         self.epoch[trial_id] = max(0, min(start, self.limit[trial_id] - 1))
 
@@ -167,7 +177,7 @@ class CkptBackend(TrialBackend):
             self._ts += 1
             self.ckpt[t] = e
             self._trial_dict[t].metrics.append({
-                METRIC: curve(self.spec["curve_seed"], t, e, self.spec.get("flavour", "plain")),
+                METRIC: metric_value(self.spec, t, e),
                 RESOURCE: e, ST_WORKER_TIMESTAMP: float(self._ts), ST_WORKER_TIME: float(e),
                 ST_WORKER_COST: float(e), "elapsed_time": float(e)})
         for t in running:
